@@ -1010,6 +1010,58 @@ impl World {
                 }
                 (true, false, None)
             }
+            Op::RoContend { steps } => {
+                if self.mem.is_some() || !self.model.exists {
+                    return (false, true, None);
+                }
+                let (a, b) = match (Memvid::open_read_only(&self.path), Memvid::open_read_only(&self.path)) {
+                    (Ok(a), Ok(b)) => (a, b),
+                    _ => return (false, true, None),
+                };
+                let mut hs = [Some(a), Some(b)];
+                let mut writer = [false, false];
+                let mut renamed = false;
+                let base_seq = self.model.ticket_seq.max(0) + 1000;
+                for (k, (h, act)) in steps.iter().enumerate() {
+                    let h = (*h as usize) & 1;
+                    let lb = shim::log_len();
+                    let Some(m) = hs[h].as_mut() else { continue };
+                    match act {
+                        0 | 2 => {
+                            let ok = if *act == 0 {
+                                // apply_ticket goes through ensure_writable on a read-only handle
+                                // (a put is refused earlier: the handle's log is read-only)
+                                m.apply_ticket(Ticket::new(format!("contender-{h}"), base_seq + k as i64)).is_ok()
+                            } else {
+                                let tok = format!("contender-{h}-{k}-{i}");
+                                m.put_bytes_with_options(tok.as_bytes(), PutOptions::default()).is_ok()
+                            };
+                            self.probes_extra(if ok { "contend_put_ok" } else { "contend_put_refused" }, 1);
+                            if ok {
+                                if writer[1 - h] {
+                                    let what = if renamed { "after-commit" } else { "ro-upgrade" };
+                                    self.viol_sig(&["C17"], "second-writer-excluded", what, format!("handle {h} (opened read-only) completed a put at step {k} while the other handle is a live writer ({what})"), i);
+                                }
+                                writer[h] = true;
+                            }
+                        }
+                        _ => {
+                            if m.downgrade_to_shared().is_ok() {
+                                writer[h] = false;
+                            }
+                        }
+                    }
+                    if self.log_range_has(lb, Kind::Rename) {
+                        renamed = true;
+                    }
+                }
+                self.probes_extra("ro_contentions", 1);
+                hs[0].take();
+                hs[1].take();
+                // what the two handles left behind is outside the reference model
+                self.model.unpredictable = true;
+                (true, false, None)
+            }
             Op::Downgrade => {
                 if self.mem.is_none() || self.ro {
                     return (false, true, None);
